@@ -10,7 +10,7 @@ All statements quantify over every exact rational input (the exact value of the 
 import FlexModel.Fac.MappingLemmas
 
 namespace Props.C11
-open FlexModel.Fac.Mapping FlexModel.Fac.MappingLemmas Generated.Fac
+open FlexModel.Fac.Mapping FlexModel.Fac.MappingLemmas Generated.Fac Generated.Fac11
 open Generated.Asn1
 
 /-- the three ASN.1 module texts the coders compile (CAM, VAM, DENM) agree on the ranges and special codes of
@@ -92,15 +92,38 @@ theorem altitude_confidence_encodable (epv : Option Rat) :
     Denm.AltitudeConfidence_names = Cam.AltitudeConfidence_names :=
   ⟨altConf_encodable epv, by decide, by decide⟩
 
-/-- altitude confidence: the class written is a true upper bound of `epv` taken from the ladder, or `outOfRange`
-when `epv` is not below any step (≥ 200 m) -/
-theorem altitude_confidence_sound (epv : Rat) :
-    (∃ k, (k, altConf (some epv)) ∈ ALT_CONF_LADDER ∧ epv < k) ∨
-    (altConf (some epv) = "outOfRange" ∧ (200 : Rat) ≤ epv) := by
-  rcases altConfFrom_sound ALT_CONF_LADDER epv with h | ⟨h1, h2⟩
-  · exact Or.inl h
-  · refine Or.inr ⟨h1, ?_⟩
-    exact h2 ((200 : Rat), "alt-200-00") (by decide +kernel)
+/-- altitude confidence, CDD reading (TS 102 894-2: class `alt-xxx-yy` "if the confidence value is equal to or less than"
+its bound "and greater than" the previous one; `outOfRange` "greater than 200 metres"), for EVERY estimate:
+the class written is listed with the LEAST bound of the ladder that is ≥ epv (so epv ≤ bound, and every smaller bound is
+< epv: tightness), and `outOfRange` is written exactly when epv > 200 m -/
+theorem altitude_confidence_class (epv : Rat) :
+    (∀ k, altBound epv = some k →
+        epv ≤ k ∧ (∀ p ∈ ALT_CONF_LADDER, p.1 < k → p.1 < epv) ∧ (k, altConf (some epv)) ∈ ALT_CONF_LADDER ∧
+        altConf (some epv) ≠ "outOfRange") ∧
+    (altBound epv = none → altConf (some epv) = "outOfRange") ∧
+    (altBound epv = none ↔ (200 : Rat) < epv) := by
+  simp only [altBound, altConf, altConf_op_good]
+  refine ⟨fun k hk => ?_, fun hn => (altBound_none _ _ hn).1, ⟨fun hn => ?_, fun hgt => ?_⟩⟩
+  · obtain ⟨h1, h2, h3⟩ := altBound_some ALT_CONF_LADDER ladder_increasing epv k hk
+    refine ⟨h1, h2, h3, ?_⟩
+    intro hout
+    rw [hout] at h3
+    have : ∀ p ∈ ALT_CONF_LADDER, p.2 ≠ "outOfRange" := by decide +kernel
+    exact this _ h3 rfl
+  · exact (altBound_none _ _ hn).2 ((200 : Rat), "alt-200-00") (by decide +kernel)
+  · cases h : altBoundFromG 1 ALT_CONF_LADDER epv with
+    | none => rfl
+    | some k =>
+      obtain ⟨h1, _, h3⟩ := altBound_some ALT_CONF_LADDER ladder_increasing epv k h
+      have hk : ∀ p ∈ ALT_CONF_LADDER, p.1 ≤ (200 : Rat) := by decide +kernel
+      have := hk _ h3
+      simp only at this
+      grind
+
+/-- non-vacuity: the bounds themselves belong to their class (200 m is `alt-200-00`, not outOfRange; 0.5 m is
+`alt-000-50`), just above 200 m is outOfRange -/
+example : altConf (some 200) = "alt-200-00" ∧ altConf (some (1 / 2)) = "alt-000-50" ∧ altConf (some (20001 / 100)) = "outOfRange" ∧
+    altBound 200 = some 200 ∧ altBound (3 / 2) = some 2 := by decide +kernel
 
 /-- heading value (CAM `headingValue`, VAM `heading.value`): for every track ≥ 0 the result is 0…3599 — never
 `doNotUse`(3600) nor `unavailable`(3601); below 360° it is within one unit (0.1°); exactly 360° is written as 0 -/
@@ -182,23 +205,107 @@ theorem ellipse_major_ge_minor_cam_vam (epx epy : Err)
   · simp only [ellipseWith]; split <;> exact (goodAxis_spec _).1.1
   · simp only [ellipseWith]; split <;> exact (goodAxis_spec _).1.2
 
+/-- non-vacuity of the range hypotheses of `latitude_spec`, `longitude_spec`, `heading_spec`, `heading_confidence_spec`,
+`speed_spec`, `ellipse_major_ge_minor_cam_vam` (instances at the limits of the stated ranges), with the values obtained -/
+example : latitude (some 900000000) = 900000000 ∧ latitude (some (-900000000)) = -900000000 ∧
+    longitude (some (-1800000000)) = -1800000000 ∧ longitude (some (217340349999999 / 10000000)) = 21734034 ∧
+    heading CAM_HEADING_MOD (some 3600) = 0 ∧ heading VAM_HEADING_MOD (some (35999 / 10)) = 3599 ∧
+    headingConf (some (1 / 20, 1 / 2)) = 1 ∧ headingConf (some (25 / 2, 125)) = 125 ∧ headingConf (some (13, 130)) = 126 ∧
+    camSpeed (some 0) = 0 ∧ vamSpeed (some (32763 / 2)) = 16381 ∧ camSpeed (some 20000) = 16382 ∧
+    camEllipse (some (⟨5, 500⟩, ⟨3, 300⟩)) = ⟨500, 300, 900⟩ ∧ camEllipse (some (⟨3, 300⟩, ⟨5, 500⟩)) = ⟨500, 300, 0⟩ := by
+  decide +kernel
+example := latitude_spec 900000000 ⟨by decide +kernel, by decide +kernel⟩
+example := longitude_spec (-1800000000) ⟨by decide +kernel, by decide +kernel⟩
+example := heading_spec CAM_HEADING_MOD (Or.inl rfl) 3600 (by decide +kernel)
+example := heading_confidence_spec (25 / 2) 125 (by decide +kernel) (fun _ => by decide +kernel)
+example := speed_spec camSpeed (Or.inl rfl) 20000 (by decide +kernel)
+example := ellipse_major_ge_minor_cam_vam ⟨5, 500⟩ ⟨3, 300⟩ ⟨fun h => absurd h (by decide +kernel), fun _ => by decide +kernel⟩
+
+/-- orientation of the ellipse: epy (north-south error) ≥ epx → the major axis points north (0); otherwise it points
+east (900 = 90.0°); always a regular Wgs84AngleValue, never doNotUse / unavailable -/
+theorem ellipse_orientation (epx epy : Err) :
+    (epx.raw ≤ epy.raw → (camEllipse (some (epx, epy))).orientation = 0) ∧
+    (epy.raw < epx.raw → (camEllipse (some (epx, epy))).orientation = 900) ∧
+    (vamEllipse (some (epx, epy))).orientation = (camEllipse (some (epx, epy))).orientation := by
+  have ho : ELLIPSE_ORIENT_NS = 0 ∧ ELLIPSE_ORIENT_EW = 900 := by decide
+  have hv : VAM_ELLIPSE_OWN = 0 := semiAxis_ok.2
+  simp only [camEllipse, vamEllipse, hv, if_true, ellipseWith, ho.1, ho.2]
+  refine ⟨fun h => ?_, fun h => ?_, trivial⟩
+  · have : epy.raw ≥ epx.raw := h
+    simp [this]
+  · have : ¬ (epy.raw ≥ epx.raw) := by grind
+    simp [this]
+
+/-- C11-F10 witness: before the repair the orientation was 0 in both cases — an east-west error ellipse (epx 5 m,
+epy 3 m) was sent as a north-south one -/
+example : (ellipseWith semiAxis ⟨5, 500⟩ ⟨3, 300⟩).orientation = 900 := by decide +kernel
+
 /-- generationDeltaTime is always inside 0…65535 -/
 theorem gdt_in_constraint (g : Int) : Cam.GenerationDeltaTime_lo ≤ gdt g ∧ gdt g ≤ Cam.GenerationDeltaTime_hi := by
   have := gdt_range g
   simp only [Cam.GenerationDeltaTime_lo, Cam.GenerationDeltaTime_hi]; omega
 
 /-- a receiver reconstructs the absolute generation time of any message younger than 65.536 s:
-for all UTC millisecond instants g (from the ITS epoch on) and reception instants r with g ≤ r < g + 65536 -/
+for ALL UTC millisecond instants g (from the ITS epoch on) and ALL reception instants r with g ≤ r < g + 65536
+(age 0 … 65535 ms, every generationDeltaTime value incl. 0 and 65535, across wrap-arounds).  `reconstruct` interprets the
+comparison operator regenerated from `as_timestamp_in_certain_point` (`REC_CMP_OP = 1`, i.e. `<=`, by `decide`) -/
 theorem gdt_reconstruct (g r : Int) (hg : (ITS_EPOCH_MS : Int) - ELAPSED_MILLISECONDS ≤ g) (h1 : g ≤ r) (h2 : r < g + 65536) :
     reconstruct (gdt g) r = g :=
   FlexModel.Fac.MappingLemmas.gdt_reconstruct g r hg h1 h2
 
-/-- non-vacuity / tightness of `gdt_reconstruct`: at exactly 65.536 s the reconstruction is one cycle off -/
-example : reconstruct (gdt 1700000000000) (1700000000000 + 65536) = 1700000000000 + 65536 := by decide
+/-- the same in terms of the age of the message -/
+theorem gdt_reconstruct_age (g : Int) (age : Nat) (hg : (ITS_EPOCH_MS : Int) - ELAPSED_MILLISECONDS ≤ g) (ha : age < 65536) :
+    reconstruct (gdt g) (g + age) = g :=
+  gdt_reconstruct g (g + age) hg (by omega) (by omega)
 
-/-- no report inside the stated ranges makes generation fail at model level: every data element written by the CAM /
-VAM builders lies inside its ASN.1 constraint, for every subset of present fields -/
-theorem report_encodable (lat lon alt track speed : Option Rat) (epd : Option (Rat × Rat)) (errs : Option (Err × Err)) (epv : Option Rat)
+/-- non-vacuity / tightness of `gdt_reconstruct`: ages 0, 1 and 65535 ms, generationDeltaTime 0 and 65535 are covered;
+at exactly 65.536 s the reconstruction is one cycle off -/
+example : reconstruct (gdt 1700000000000) 1700000000000 = 1700000000000 ∧
+    reconstruct (gdt 1700000000000) (1700000000000 + 1) = 1700000000000 ∧
+    reconstruct (gdt 1700000000000) (1700000000000 + 65535) = 1700000000000 ∧
+    gdt 1700000015480 = 0 ∧ reconstruct 0 1700000015480 = 1700000015480 ∧
+    gdt 1700000015479 = 65535 ∧ reconstruct 65535 (1700000015479 + 65535) = 1700000015479 ∧
+    reconstruct (gdt 1700000000000) (1700000000000 + 65536) = 1700000000000 + 65536 := by decide
+
+/-- witness for the comparison operator: with the strict `<` a message received in its own generation millisecond
+(age 0) is dated 65 536 ms early, for EVERY generation instant -/
+theorem gdt_reconstruct_strict_witness (g : Int) (hg : (ITS_EPOCH_MS : Int) - ELAPSED_MILLISECONDS ≤ g) :
+    reconstructG 0 (gdt g) g = g - 65536 :=
+  reconstruct_strict_age0 g hg
+
+/-- the millisecond clock the sender stamps with and the receivers read, `round(t·1000000)//1000` on the float of
+seconds `t`: exact whenever the double product is within half a microsecond of 1000·r, and both reception managements
+read the clock this way (`RX_CLOCK_EXACT_* = 1`, regenerated) -/
+theorem clock_reading_exact (r : Int) (p3 p6 : Rat) (h1 : (1000 * r : Int) - 1 / 2 < p6) (h2 : p6 < (1000 * r : Int) + 1 / 2) :
+    clockMs RX_CLOCK_EXACT_CAM p3 p6 = r ∧ clockMs RX_CLOCK_EXACT_VAM p3 p6 = r ∧ msOfMicros p6 = r := by
+  have hc : RX_CLOCK_EXACT_CAM = 1 ∧ RX_CLOCK_EXACT_VAM = 1 := by decide
+  simp only [clockMs, hc.1, hc.2, if_true]
+  exact ⟨msOfMicros_exact r p6 h1 h2, msOfMicros_exact r p6 h1 h2, msOfMicros_exact r p6 h1 h2⟩
+
+/-- end to end: generation instant g stamped from the float of seconds (`from_timestamp`), received at clock instant r
+read from the float of seconds, g ≤ r < g + 65536: the receiver reconstructs g -/
+theorem gdt_reconstruct_clocks (g r : Int) (pg p3 pr : Rat) (hg : (ITS_EPOCH_MS : Int) - ELAPSED_MILLISECONDS ≤ g)
+    (h1 : g ≤ r) (h2 : r < g + 65536)
+    (hpg : (1000 * g : Int) - 1 / 2 < pg ∧ pg < (1000 * g : Int) + 1 / 2)
+    (hpr : (1000 * r : Int) - 1 / 2 < pr ∧ pr < (1000 * r : Int) + 1 / 2) :
+    reconstruct (gdt (msOfMicros pg)) (clockMs RX_CLOCK_EXACT_CAM p3 pr) = g := by
+  rw [(clock_reading_exact r p3 pr hpr.1 hpr.2).1, msOfMicros_exact g pg hpg.1 hpg.2]
+  exact gdt_reconstruct g r hg h1 h2
+
+/-- non-vacuity of `gdt_reconstruct_clocks` (age 0, exact products) -/
+example : reconstruct (gdt (msOfMicros (8690619484007999 / 4))) (clockMs RX_CLOCK_EXACT_CAM 0 (8690619484007999 / 4)) = 2172654871002 := by
+  decide +kernel
+
+/-- C11-F8 witness (reception managements before the repair): `int(t·1000)` on t = 2172654871.002 s reads
+…001 (the double product is 8899194351624191/4096 = 2172654871001.99975…; the double t·1000000 is …001999.75), and a CAM generated in that millisecond is dated 65 536 ms early -/
+theorem rx_clock_trunc_witness :
+    clockMs 0 (8899194351624191 / 4096) (8690619484007999 / 4) = 2172654871001 ∧
+    clockMs 1 (8899194351624191 / 4096) (8690619484007999 / 4) = 2172654871002 ∧
+    reconstruct (gdt 2172654871002) 2172654871001 = 2172654871002 - 65536 := by decide +kernel
+
+/-- (lemma for `report_encodable`) every report-derived data element of the CAM builder lies inside its ASN.1
+constraint, for every subset of present fields -/
+theorem cam_elements_encodable (lat lon alt track speed : Option Rat) (epd : Option (Rat × Rat)) (errs : Option (Err × Err)) (epv : Option Rat)
     (hlat : ∀ x, lat = some x → -900000000 ≤ x ∧ x ≤ 900000000)
     (hlon : ∀ x, lon = some x → -1800000000 ≤ x ∧ x ≤ 1800000000)
     (htrack : ∀ x, track = some x → 0 ≤ x) (hspeed : ∀ x, speed = some x → 0 ≤ x)
@@ -251,6 +358,303 @@ theorem report_encodable (lat lon alt track speed : Option Rat) (epd : Option (R
       simp only [camEllipse, ellipseWith]
       split <;> exact semi_axis_range _
 
+/-- all report-derived elements of a message inside their ASN.1 constraints -/
+def fieldsEncodable (f : Fields) : Prop :=
+  (Cam.Latitude_lo ≤ f.lat ∧ f.lat ≤ Cam.Latitude_hi) ∧ (Cam.Longitude_lo ≤ f.lon ∧ f.lon ≤ Cam.Longitude_hi) ∧
+  (Cam.AltitudeValue_lo ≤ f.alt ∧ f.alt ≤ Cam.AltitudeValue_hi) ∧
+  (Cam.HeadingValue_lo ≤ f.heading ∧ f.heading ≤ Cam.HeadingValue_hi) ∧
+  (Cam.HeadingConfidence_lo ≤ f.hconf ∧ f.hconf ≤ Cam.HeadingConfidence_hi) ∧
+  (Cam.SpeedValue_lo ≤ f.speed ∧ f.speed ≤ Cam.SpeedValue_hi) ∧
+  (Cam.SemiAxisLength_lo ≤ f.ell.minor ∧ f.ell.minor ≤ Cam.SemiAxisLength_hi) ∧
+  (Cam.SemiAxisLength_lo ≤ f.ell.major ∧ f.ell.major ≤ Cam.SemiAxisLength_hi) ∧
+  (Cam.HeadingValue_lo ≤ f.ell.orientation ∧ f.ell.orientation ≤ Cam.HeadingValue_hi) ∧
+  f.altConf ∈ Cam.AltitudeConfidence_names
+
+/-- the VAM builder maps every report exactly like the CAM builder (its own guards / modulus / ellipse, regenerated,
+are equivalent) -/
+theorem vam_fields_eq_cam (r : Report) : vamFields r = camFields r := by
+  have hm := heading_mod_good
+  have hv : VAM_ELLIPSE_OWN = 0 := semiAxis_ok.2
+  have halt : altitude vamAlt r.alt = altitude camAlt r.alt := by
+    cases r.alt with
+    | none => rfl
+    | some x => simp only [altitude]; rw [altitudeG_congr vamAlt_ok x, altitudeG_congr camAlt_ok x]
+  have hsp : vamSpeed r.speed = camSpeed r.speed := by
+    cases r.speed with
+    | none => rfl
+    | some x => simp only [vamSpeed, camSpeed]; rw [speedG_congr speed_ok.2 x, speedG_congr speed_ok.1 x]
+  have hel : vamEllipse r.errs = camEllipse r.errs := by
+    cases r.errs with
+    | none => rfl
+    | some p => simp only [vamEllipse, camEllipse, hv, if_true]
+  simp only [vamFields, camFields, halt, hsp, hel, hm.1, hm.2]
+
+/-- no report inside the stated ranges makes generation fail at model level: for every subset of present fields every
+report-derived data element of the CAM, of the VAM and of the DENM event position lies inside its ASN.1 constraint
+(so the encoder neither raises nor wraps), and so does generationDeltaTime for every generation instant -/
+theorem report_encodable (r : Report) (g : Int)
+    (hlat : ∀ x, r.lat = some x → -900000000 ≤ x ∧ x ≤ 900000000)
+    (hlon : ∀ x, r.lon = some x → -1800000000 ≤ x ∧ x ≤ 1800000000)
+    (htrack : ∀ x, r.track = some x → 0 ≤ x) (hspeed : ∀ x, r.speed = some x → 0 ≤ x)
+    (hepd : ∀ a b, r.epd = some (a, b) → 0 ≤ b ∧ (a ≤ 25 / 2 → b ≤ 125)) :
+    fieldsEncodable (camFields r) ∧ fieldsEncodable (vamFields r) ∧
+    ((Denm.Latitude_lo ≤ (denmPos r).lat ∧ (denmPos r).lat ≤ Denm.Latitude_hi) ∧
+     (Denm.Longitude_lo ≤ (denmPos r).lon ∧ (denmPos r).lon ≤ Denm.Longitude_hi) ∧
+     (Denm.AltitudeValue_lo ≤ (denmPos r).alt ∧ (denmPos r).alt ≤ Denm.AltitudeValue_hi)) ∧
+    (Cam.GenerationDeltaTime_lo ≤ gdt g ∧ gdt g ≤ Cam.GenerationDeltaTime_hi) := by
+  obtain ⟨h1, h2, h3, h4, h5, h6, h7, h8, h9⟩ :=
+    cam_elements_encodable r.lat r.lon r.alt r.track r.speed r.epd r.errs r.epv hlat hlon htrack hspeed hepd
+  have hor : Cam.HeadingValue_lo ≤ (camEllipse r.errs).orientation ∧ (camEllipse r.errs).orientation ≤ Cam.HeadingValue_hi := by
+    cases r.errs with
+    | none => decide
+    | some p => simp only [camEllipse, ellipseWith]; split <;> (dsimp only; decide)
+  have hc : fieldsEncodable (camFields r) := ⟨h1, h2, h3, h4, h5, h6, h7, h8, hor, h9⟩
+  refine ⟨hc, by rw [vam_fields_eq_cam]; exact hc, ⟨?_, ?_, ?_⟩, gdt_in_constraint g⟩
+  · exact h1
+  · exact h2
+  · cases h : r.alt with
+    | none => simp only [denmPos, h]; decide
+    | some x => simp only [denmPos, h]; exact (altitude_spec denmAlt (Or.inr (Or.inr rfl)) x).1
+
+/-- non-vacuity of `report_encodable`: the empty report, and a full report at the range limits -/
+example : fieldsEncodable (camFields {}) ∧
+    (camFields { lat := some 900000000, lon := some (-1800000000), alt := some 1000000, epx := some ⟨300, 30000⟩,
+                 epy := some ⟨0, 0⟩, epv := some 200, epd := some (360, 3600), track := some 3600, speed := some 20000 } =
+      ⟨900000000, -1800000000, ⟨4094, 1, 900⟩, 800000, "alt-200-00", 0, 126, 16382⟩) := by
+  refine ⟨?_, by decide +kernel⟩
+  exact (report_encodable {} 0 (by simp) (by simp) (by simp) (by simp) (by simp)).1
+
+/-- (helper, not a property claim) an encoded value within one unit of the double product is within `1 + d` units of the
+physical scaled measurement when the double product is within `d` of it (d ≤ 2⁻²² units for every product the builders
+form in the stated ranges) -/
+theorem resolution_of_physical (x p d : Rat) (v : Int) (hb : x - d ≤ p ∧ p ≤ x + d) (hv : p - 1 < (v : Rat) ∧ (v : Rat) < p + 1) :
+    x - (1 + d) < (v : Rat) ∧ (v : Rat) < x + (1 + d) := by
+  constructor <;> grind
+
+/-! ### the encoding itself (clauses "valid UPER" / "decodes to the values intended"): partial -/
+
+/-- PARTIAL (what is missing: extension bits, OPTIONAL bitmaps, ENUMERATED / CHOICE / BIT STRING / open types and the
+length determinants - i.e. everything of UPER except constrained whole numbers; those parts are observed per message,
+not proved).  For a SEQUENCE of constrained INTEGERs as asn1tools encodes it (`data - minimum` shifted into
+`integer_as_number_of_bits(maximum - minimum)` bits, NO range check): if every value lies inside its constraint, the bit
+string decodes to exactly the values encoded — for every list of fields and values -/
+theorem uper_int_fields_roundtrip_partial (fs : List (IntField × Int)) (h : ∀ fv ∈ fs, fv.1.lo ≤ fv.2 ∧ fv.2 ≤ fv.1.hi) :
+    decodeInts (encodeInts fs) (fs.map (·.1)) = fs.map (·.2) := by
+  have := decode_encode_aux fs ⟨0, 0⟩ [] h
+  simp only [List.append_nil, decodeRev] at this
+  simp only [decodeInts, encodeInts, this, List.reverse_reverse]
+
+/-- the integer data elements of a message with the constraints regenerated from the ASN.1 text -/
+def intElements (f : Fields) : List (IntField × Int) :=
+  [(⟨Cam.Latitude_lo, Cam.Latitude_hi⟩, f.lat), (⟨Cam.Longitude_lo, Cam.Longitude_hi⟩, f.lon),
+   (⟨Cam.SemiAxisLength_lo, Cam.SemiAxisLength_hi⟩, f.ell.major), (⟨Cam.SemiAxisLength_lo, Cam.SemiAxisLength_hi⟩, f.ell.minor),
+   (⟨Cam.HeadingValue_lo, Cam.HeadingValue_hi⟩, f.ell.orientation), (⟨Cam.AltitudeValue_lo, Cam.AltitudeValue_hi⟩, f.alt),
+   (⟨Cam.HeadingValue_lo, Cam.HeadingValue_hi⟩, f.heading), (⟨Cam.HeadingConfidence_lo, Cam.HeadingConfidence_hi⟩, f.hconf),
+   (⟨Cam.SpeedValue_lo, Cam.SpeedValue_hi⟩, f.speed)]
+
+/-- consequence with `report_encodable`: for every report inside the stated ranges the integer data elements of the CAM
+and of the VAM survive the (modelled) encoding unchanged -/
+theorem report_ints_roundtrip (r : Report)
+    (hlat : ∀ x, r.lat = some x → -900000000 ≤ x ∧ x ≤ 900000000)
+    (hlon : ∀ x, r.lon = some x → -1800000000 ≤ x ∧ x ≤ 1800000000)
+    (htrack : ∀ x, r.track = some x → 0 ≤ x) (hspeed : ∀ x, r.speed = some x → 0 ≤ x)
+    (hepd : ∀ a b, r.epd = some (a, b) → 0 ≤ b ∧ (a ≤ 25 / 2 → b ≤ 125)) :
+    decodeInts (encodeInts (intElements (camFields r))) ((intElements (camFields r)).map (·.1)) = (intElements (camFields r)).map (·.2) ∧
+    decodeInts (encodeInts (intElements (vamFields r))) ((intElements (vamFields r)).map (·.1)) = (intElements (vamFields r)).map (·.2) := by
+  obtain ⟨hc, hv, _, _⟩ := report_encodable r 0 hlat hlon htrack hspeed hepd
+  have key : ∀ f : Fields, fieldsEncodable f → ∀ fv ∈ intElements f, fv.1.lo ≤ fv.2 ∧ fv.2 ≤ fv.1.hi := by
+    intro f ⟨h1, h2, h3, h4, h5, h6, h7, h8, h9, _⟩ fv hm
+    simp only [intElements, List.mem_cons, List.not_mem_nil, or_false] at hm
+    rcases hm with rfl | rfl | rfl | rfl | rfl | rfl | rfl | rfl | rfl <;> assumption
+  exact ⟨uper_int_fields_roundtrip_partial _ (key _ hc), uper_int_fields_roundtrip_partial _ (key _ hv)⟩
+
+/-- non-vacuity, and the field widths of the data elements (Latitude 31 bits, Longitude 32, SemiAxisLength 12,
+AltitudeValue 20, HeadingValue 12, HeadingConfidence 7, SpeedValue 14, GenerationDeltaTime 16) -/
+example : (intElements (camFields {})).map (·.1.width) = [31, 32, 12, 12, 12, 20, 12, 7, 14] ∧
+    nbits (Cam.GenerationDeltaTime_hi - Cam.GenerationDeltaTime_lo).toNat = 16 ∧
+    decodeInts (encodeInts [(⟨-1800000000, 1800000001⟩, 21734035), (⟨0, 4095⟩, 4094)]) [⟨-1800000000, 1800000001⟩, ⟨0, 4095⟩] =
+      [21734035, 4094] := by decide +kernel
+
+/-- witness (C11-F2, the reason clause 4 says "instead of wrapping"): a value beyond its constraint is not rejected by
+the encoder; 5000 in the 12-bit SemiAxisLength field decodes to 904 and its 13th bit spills into the neighbouring
+longitude (…034 becomes …035) -/
+theorem uper_overflow_witness :
+    decodeInts (encodeInts [(⟨-1800000000, 1800000001⟩, 21734034), (⟨0, 4095⟩, 5000)]) [⟨-1800000000, 1800000001⟩, ⟨0, 4095⟩] =
+      [21734035, 904] := by decide +kernel
+
+/-! ### station roles: encodable, and no report stalls generation -/
+
+/-- every vehicle role (all naturals: indices beyond the table give "default") is written with a name of the compiled
+`VehicleRole` enumeration, and for the 16 roles `VehicleData` accepts the name decodes back to the role number -/
+theorem role_encodable (role : Nat) :
+    roleName VEHICLE_ROLE_NAMES role ∈ VehicleRole_names ∧
+    (role < 16 → VehicleRole_names.idxOf (roleName VEHICLE_ROLE_NAMES role) = role ∧ VehicleRole_values.getD role 99 = role) := by
+  by_cases h : role < 16
+  · have : ∀ r, r < 16 → roleName VEHICLE_ROLE_NAMES r ∈ VehicleRole_names ∧
+        VehicleRole_names.idxOf (roleName VEHICLE_ROLE_NAMES r) = r ∧ VehicleRole_values.getD r 99 = r := by decide
+    exact ⟨(this role h).1, fun _ => (this role h).2⟩
+  · have hl : VEHICLE_ROLE_NAMES.length = 16 := by decide
+    have : roleName VEHICLE_ROLE_NAMES role = "default" := by
+      have hn : VEHICLE_ROLE_NAMES[role]? = none := List.getElem?_eq_none (by omega)
+      simp [roleName, List.getD_eq_getElem?_getD, hn]
+    rw [this]
+    exact ⟨by decide, fun h' => absurd h' h⟩
+
+/-- no role stalls CAM generation: for every role and EVERY sequence of generation instants, each attempt hands a CAM
+to BTP (none is skipped), and every low-frequency container carries the station's role -/
+theorem role_no_stall (role : Nat) (ticks : List Int) :
+    let t := txRun VEHICLE_ROLE_NAMES VehicleRole_names role ticks
+    t.out.length = ticks.length ∧ t.skipped = 0 ∧
+    (∀ o ∈ t.out, o = none ∨ o = some (roleName VEHICLE_ROLE_NAMES role)) ∧
+    (ticks ≠ [] → t.out.getLast? = some (some (roleName VEHICLE_ROLE_NAMES role))) := by
+  have hm := (role_encodable role).1
+  obtain ⟨a, b, c⟩ := txRun_no_stall hm ticks {}
+  simp only [txRun]
+  refine ⟨by simpa using a, by simpa using b, ?_, ?_⟩
+  · intro o ho
+    rcases c o ho with h | h
+    · simp at h
+    · exact h
+  · intro hne
+    cases ticks with
+    | nil => exact absurd rfl hne
+    | cons t ts =>
+      -- the first CAM after activation always includes the low-frequency container
+      have h1 := (txStep_sent hm ({} : Tx) t).2.2.2 (by simp [includeLf])
+      have hstep : (txStep VEHICLE_ROLE_NAMES VehicleRole_names role {} t).out = [some (roleName VEHICLE_ROLE_NAMES role)] := by
+        have hl := (txStep_sent hm ({} : Tx) t).1
+        simp only [List.length_nil, Nat.zero_add] at hl
+        match hout : (txStep VEHICLE_ROLE_NAMES VehicleRole_names role {} t).out, hl, h1 with
+        | [x], _, h1 => simp only [List.head?_cons, Option.some.injEq] at h1; rw [h1]
+      -- later CAMs are prepended: the last element stays
+      have keep : ∀ (us : List Int) (s : Tx), s.out ≠ [] →
+          (us.foldl (txStep VEHICLE_ROLE_NAMES VehicleRole_names role) s).out.getLast? = s.out.getLast? := by
+        intro us
+        induction us with
+        | nil => intro s _; rfl
+        | cons u us ih =>
+          intro s hs
+          simp only [List.foldl_cons]
+          have hout : (txStep VEHICLE_ROLE_NAMES VehicleRole_names role s u).out =
+              (if includeLf s u then some (roleName VEHICLE_ROLE_NAMES role) else none) :: s.out := by
+            simp [txStep, hm]
+          rw [ih _ (by rw [hout]; simp), hout, List.getLast?_cons_of_ne_nil hs]
+      simp only [List.foldl_cons]
+      rw [keep ts _ (by rw [hstep]; simp), hstep]
+      rfl
+
+/-- non-vacuity: role 8 (agriculture), three generation instants 0 / 100 / 600 ms: three CAMs, LF container in the 1st and 3rd -/
+example : (txRun VEHICLE_ROLE_NAMES VehicleRole_names 8 [0, 100, 600]).out = [some "agriculture", none, some "agriculture"] ∧
+    (txRun VEHICLE_ROLE_NAMES VehicleRole_names 8 [0, 100, 600]).skipped = 0 := by decide
+
+/-- the role table of the commit before the repair (C11-F6) -/
+def oldRoleNames : List String :=
+  ["default", "publicTransport", "specialTransport", "dangerousGoods", "roadWork", "rescue", "emergency", "safetyCar",
+   "agricultural", "commercial", "military", "roadOperator", "taxi", "reserved1", "reserved2", "reserved3"]
+
+/-- C11-F6 witness: with the old table a station of role 8, 13, 14 or 15 NEVER sends a CAM — for every sequence of
+generation instants every attempt is skipped (the first CAM carries the LF container, its encoding fails, the exception
+is swallowed and no state changes, so the next attempt is again a first CAM) -/
+theorem role_stall_old_witness (role : Nat) (h : role = 8 ∨ role = 13 ∨ role = 14 ∨ role = 15) (ticks : List Int) :
+    (txRun oldRoleNames VehicleRole_names role ticks).out = [] ∧
+    (txRun oldRoleNames VehicleRole_names role ticks).skipped = ticks.length := by
+  have hn : roleName oldRoleNames role ∉ VehicleRole_names := by
+    rcases h with h | h | h | h <;> subst h <;> decide
+  obtain ⟨a, b⟩ := txRun_stall hn ticks {} rfl
+  simp only [txRun]
+  exact ⟨a, by simpa using b⟩
+
+/-! ### histories of reports on one service instance -/
+
+/-- the CAM generated after ANY history of reports encodes the LAST report only (the transmission management caches
+the report itself: `CAM_TPV_CACHE_REPLACE = 1` and no access to the cache outside its lock, both regenerated) -/
+theorem cam_encodes_last_report (rs : List Report) (r : Report) :
+    camAfter CAM_TPV_CACHE_REPLACE (rs ++ [r]) = some (camFields r) ∧ CAM_TPV_UNLOCKED = 0 ∧ VAM_REPORT_DIRECT = 1 := by
+  have h : CAM_TPV_CACHE_REPLACE = 1 := by decide
+  refine ⟨?_, by decide, by decide⟩
+  simp only [camAfter, h, cacheRun_replace_last, Option.map_some]
+
+/-- the DENM event position sent for a report encodes that report only, whatever was reported before
+(`DENM_POS_FRESH = 1`, regenerated) -/
+theorem denm_encodes_last_report (rs : List Report) (r : Report) :
+    evaRun DENM_POS_FRESH (rs ++ [r]) = denmPos r := by
+  have h : DENM_POS_FRESH = 1 := by decide
+  rw [h]; exact evaRun_fresh_last rs r
+
+/-- consequence, the unavailable clause over histories: a field the last report lacks is sent as `unavailable`
+even if an earlier report carried it (CAM and DENM) -/
+theorem history_absent_unavailable (rs : List Report) (r : Report) :
+    (r.alt = none → (camAfter CAM_TPV_CACHE_REPLACE (rs ++ [r])).map (·.alt) = some Cam.AltitudeValue_unavailable ∧
+      (evaRun DENM_POS_FRESH (rs ++ [r])).alt = Denm.AltitudeValue_unavailable) ∧
+    (r.lat = none → (camAfter CAM_TPV_CACHE_REPLACE (rs ++ [r])).map (·.lat) = some Cam.Latitude_unavailable ∧
+      (evaRun DENM_POS_FRESH (rs ++ [r])).lat = Denm.Latitude_unavailable) ∧
+    (r.speed = none → (camAfter CAM_TPV_CACHE_REPLACE (rs ++ [r])).map (·.speed) = some Cam.SpeedValue_unavailable) ∧
+    (r.track = none → (camAfter CAM_TPV_CACHE_REPLACE (rs ++ [r])).map (·.heading) = some Cam.HeadingValue_unavailable) ∧
+    (r.epd = none → (camAfter CAM_TPV_CACHE_REPLACE (rs ++ [r])).map (·.hconf) = some Cam.HeadingConfidence_unavailable) ∧
+    (r.epv = none → (camAfter CAM_TPV_CACHE_REPLACE (rs ++ [r])).map (·.altConf) = some "unavailable") ∧
+    (r.errs = none → (camAfter CAM_TPV_CACHE_REPLACE (rs ++ [r])).map (·.ell) =
+      some ⟨Cam.SemiAxisLength_unavailable, Cam.SemiAxisLength_unavailable, 3601⟩) := by
+  rw [(cam_encodes_last_report rs r).1, denm_encodes_last_report]
+  simp only [Option.map_some, camFields, denmPos]
+  refine ⟨fun h => ?_, fun h => ?_, fun h => ?_, fun h => ?_, fun h => ?_, fun h => ?_, fun h => ?_⟩ <;> rw [h] <;> decide
+
+/-- non-vacuity + witnesses: a full report followed by a position-only report.  Merging the cache (`replace = 0`, the
+seeded change) leaks the old altitude into the CAM; carrying the event position over (`fresh = 0`, C11-F7 before the
+repair) leaks the old latitude/altitude into the DENM -/
+theorem history_leak_witness :
+    let r1 : Report := { lat := some 410000000, lon := some 20000000, alt := some 10000, speed := some 1380 }
+    let r2 : Report := { lon := some 30000000 }
+    ((camAfter 1 [r1, r2]).map (·.alt) = some 800001 ∧ (camAfter 0 [r1, r2]).map (·.alt) = some 10000 ∧
+     (camAfter 0 [r1, r2]).map (·.speed) = some 1380) ∧
+    (evaRun 1 [r1, r2] = ⟨900000001, 30000000, 800001⟩ ∧ evaRun 0 [r1, r2] = ⟨410000000, 30000000, 10000⟩) := by
+  decide +kernel
+
+/-! ### cluster information container of the VRU service -/
+
+/-- regenerated structural facts: the three methods the VAM transmission path calls on the clustering manager read the
+manager's state only inside `with self._lock` (an RLock) -/
+theorem cluster_containers_under_lock :
+    CLUSTER_INFO_UNLOCKED = [] ∧ CLUSTER_OP_UNLOCKED = [] ∧ CLUSTER_SHOULD_TX_UNLOCKED = [] ∧ CLUSTER_LOCK_REENTRANT = true := by
+  decide
+
+/-- with the container built inside the lock, under EVERY interleaving with the maintenance thread that completes a
+cluster break-up the transmitting thread obtains a consistent snapshot: the container of the cluster as it was, or no
+container — it never fails and never mixes two states -/
+theorem cluster_info_atomic (m : Mgr) (sched : List Bool) :
+    (concRun infoLocked m sched = infoAtomic m ∨ concRun infoLocked m sched = .absent) ∧
+    concRun infoLocked m sched ≠ .fail := by
+  have hl : infoLocked = true := by decide
+  rw [hl]
+  have h := concRun_locked m sched
+  refine ⟨h, ?_⟩
+  rcases h with h | h <;> rw [h]
+  · exact infoAtomic_ne_fail m
+  · simp
+
+/-- witness: with the reads of `self._cluster` outside the lock (the seeded change) the schedule check / break-up /
+read fails (`AttributeError`), and no VAM is generated for the report -/
+theorem cluster_info_unlocked_witness :
+    concRun false ⟨true, some ⟨7, 5, 3⟩⟩ [true, false, true] = .fail ∧
+    concRun true ⟨true, some ⟨7, 5, 3⟩⟩ [true, false, true] = .info 7 5 3 := by decide +kernel
+
+/-- the values of the container: radius `max(1, int(r))` is inside StandardLength12b for 0 ≤ r < 4096, within one unit
+from 1 m on -/
+theorem cluster_info_values (c : Cluster) (h0 : 0 ≤ c.radius) (h1 : c.radius < 4096) :
+    ∃ rad, infoOf c = .info c.id rad c.cardinality ∧ 1 ≤ rad ∧ rad ≤ 4095 ∧
+      (1 ≤ c.radius → c.radius - 1 < (rad : Rat) ∧ (rad : Rat) < c.radius + 1) := by
+  refine ⟨max 1 (trunc c.radius), rfl, by omega, ?_, ?_⟩
+  · have : trunc c.radius ≤ 4095 := by
+      by_cases hh : (4096 : Int) ≤ trunc c.radius
+      · have := (trunc_ge_iff (x := c.radius) (a := 4096) (by decide)).mp hh
+        simp only [Rat.intCast_ofNat] at this
+        grind
+      · omega
+    omega
+  · intro h
+    have : 1 ≤ trunc c.radius := le_trunc (a := 1) (by simpa using h)
+    have hm : max 1 (trunc c.radius) = trunc c.radius := by omega
+    rw [hm]; exact trunc_close c.radius
+
 /-! ### the defects of the pinned commit (repaired by the `fix:` commits), machine-checked witnesses -/
 
 /-- C11-F1: with the old guards (`alt < -800000`, `alt > 613000`) 7000 m — representable — was written as
@@ -266,5 +670,11 @@ theorem confidence_old_witness :
     headingConfG 1 125 126 0 (1 / 20) (1 / 2) = 0 ∧ headingConfG 1 125 126 1 (1 / 20) (1 / 2) = 1 ∧
     headingG 0 3600 = 3600 ∧ headingG 3600 3600 = 0 ∧
     (vamEllipseOld ⟨1, 100⟩ ⟨2, 200⟩).major < (vamEllipseOld ⟨1, 100⟩ ⟨2, 200⟩).minor := by decide +kernel
+
+/-- C11-F9: with the strict comparison of the commit before the repair (`epv < key`) an estimate exactly on a bound
+went one class up and 200 m was sent as outOfRange -/
+theorem altitude_confidence_old_witness :
+    altConfFromG 0 ALT_CONF_LADDER 200 = "outOfRange" ∧ altConfFromG 1 ALT_CONF_LADDER 200 = "alt-200-00" ∧
+    altConfFromG 0 ALT_CONF_LADDER (1 / 2) = "alt-001-00" ∧ altConfFromG 1 ALT_CONF_LADDER (1 / 2) = "alt-000-50" := by decide +kernel
 
 end Props.C11
